@@ -50,6 +50,44 @@ type evaluator struct {
 	ctx context.Context
 }
 
+// repeats: eino keeps chain-branch arms in a Go map, so the order in which a chain connects the arms to the
+// next stage is random per build. Such a chain is built and run 24 times (each of the two orders is then missed
+// with probability 2^-24); everything else is deterministic and evaluated once.
+func repeats(p *Program) int {
+	if p.Container != "chain" {
+		return 1
+	}
+	for i, s := range p.Stages {
+		if s.Kind == "B" && i+1 < len(p.Stages) {
+			return 24
+		}
+	}
+	return 1
+}
+
+// evalProgramN evaluates p `n` times and merges the findings (first per signature).
+func (e *evaluator) evalProgramN(p *Program, n int) ([]finding, progStats) {
+	var all []finding
+	var st progStats
+	seen := map[string]bool{}
+	for i := 0; i < n; i++ {
+		fs, s := e.evalProgram(p)
+		st.orders += s.orders
+		st.accepted += s.accepted
+		st.rejected += s.rejected
+		st.calls += s.calls
+		st.runs += s.runs
+		st.agreed += s.agreed
+		for _, f := range fs {
+			if !seen[f.Sig] {
+				seen[f.Sig] = true
+				all = append(all, f)
+			}
+		}
+	}
+	return all, st
+}
+
 // evalProgram checks one call multiset in all of its orders. It returns the findings (first per signature).
 func (e *evaluator) evalProgram(p *Program) ([]finding, progStats) {
 	m := newModel(p)
@@ -75,7 +113,7 @@ func (e *evaluator) evalProgram(p *Program) ([]finding, progStats) {
 		st.calls += int64(b.Calls)
 		if b.PanicBy != "" {
 			e.c.Outcome("panic out of a construction call")
-			add(finding{Kind: "panic-escapes", Sig: classify(p, m, ord, "panic-escapes", nil, "build"), Order: ord,
+			add(finding{Kind: "panic-escapes", Sig: classify(p, m, ord, "build-panic", nil, opOf(b.PanicBy)), Order: ord,
 				Msg: fmt.Sprintf("a panic escaped from %s: %s", b.PanicBy, b.PanicMsg)})
 			return true
 		}
@@ -100,12 +138,16 @@ func (e *evaluator) evalProgram(p *Program) ([]finding, progStats) {
 				e.c.Count("nil_interface_value_runs/"+o.Kind, 1)
 				return
 			}
+			if ex.Ambiguous {
+				e.c.Count("passthrough_handler_replaces_refused_value_runs/"+o.Kind, 1)
+				return
+			}
 			e.c.Outcome("accepted; " + mode + " " + o.Kind)
 			choices := append([]choice(nil), ch.taken...)
 			switch {
 			case o.Kind == "panic":
 				if len(m.concreteMismatch) == 0 {
-					add(finding{Kind: "panic-escapes", Sig: classify(p, m, ord, "panic-escapes", &ex, mode), Order: ord, Mode: mode, Choices: choices,
+					add(finding{Kind: "panic-escapes", Sig: classify(p, m, ord, "run:"+ex.Kind+">panic", &ex, mode), Order: ord, Mode: mode, Choices: choices,
 						Msg: fmt.Sprintf("%s(%s) %s (the model expected: %s)", mode, choicesString(choices), o, expectString(ex))})
 				}
 			case ex.Kind == "unjudged":
@@ -115,7 +157,7 @@ func (e *evaluator) evalProgram(p *Program) ([]finding, progStats) {
 			case ex.Kind == "error" && o.Kind == "error":
 				st.agreed++
 			default:
-				add(finding{Kind: "run-mismatch", Sig: classify(p, m, ord, "run-mismatch:"+ex.Kind+">"+o.Kind, &ex, mode), Order: ord, Mode: mode, Choices: choices,
+				add(finding{Kind: "run-mismatch", Sig: classify(p, m, ord, "run:"+ex.Kind+">"+o.Kind, &ex, mode), Order: ord, Mode: mode, Choices: choices,
 					Msg: fmt.Sprintf("%s(%s) %s; the model expected: %s", mode, choicesString(choices), o, expectString(ex))})
 			}
 			if len(m.concreteMismatch) > 0 && o.Kind != "ok" {
@@ -145,7 +187,7 @@ func (e *evaluator) evalProgram(p *Program) ([]finding, progStats) {
 			} else {
 				msg += "; no run failed"
 			}
-			add(finding{Kind: "accepted-concrete-mismatch", Sig: classify(p, m, ord, "accepted-concrete-mismatch", nil, worst), Order: ord, Msg: msg})
+			add(finding{Kind: "accepted-concrete-mismatch", Sig: classify(p, m, ord, "accepted-concrete-mismatch", nil, ""), Order: ord, Msg: msg})
 		}
 		return true
 	})
@@ -183,41 +225,21 @@ func expectString(ex expect) string {
 func typedBefore(p *Program, order []int, pos int, pt string) []int {
 	isPass := func(n string) bool {
 		nd := p.node(n)
-		return nd != nil && nd.Kind == "P" && nd.Pre < 0 && nd.Post < 0
+		return nd != nil && nd.Kind == "P"
 	}
 	adj := map[string][]string{}
 	types := map[string][]int{}
-	outT := func(n string) int { // declared type of what n emits
+	outT := func(n string) int { // declared type of what typed node n emits
 		if n == START {
 			return p.GI
 		}
-		nd := p.node(n)
-		if nd.Post >= 0 {
-			return nd.Post
-		}
-		if nd.Kind == "L" {
-			return nd.Out
-		}
-		if nd.Pre >= 0 {
-			return nd.Pre
-		}
-		return -1
+		return p.node(n).Out
 	}
 	inT := func(n string) int {
 		if n == END {
 			return p.GO
 		}
-		nd := p.node(n)
-		if nd.Pre >= 0 {
-			return nd.Pre
-		}
-		if nd.Kind == "L" {
-			return nd.In
-		}
-		if nd.Post >= 0 {
-			return nd.Post
-		}
-		return -1
+		return p.node(n).In
 	}
 	link := func(a, b string) {
 		pa, pb := isPass(a), isPass(b)
@@ -318,56 +340,67 @@ func positionKind(p *Program, pos string) string {
 
 // classify names the class of a failure. Known mechanisms first (a bigger program that merely contains the
 // pattern is attributed to it); otherwise a mechanical description of the failing connection.
-func classify(p *Program, m *model, order []int, kind string, ex *expect, extra string) string {
+// kind: "build-panic", "accepted-concrete-mismatch", or "run:<expected>><observed>".
+func classify(p *Program, m *model, order []int, kind string, ex *expect, mode string) string {
+	exp, got := "", ""
+	if strings.HasPrefix(kind, "run:") {
+		parts := strings.SplitN(kind[4:], ">", 2)
+		exp, got = parts[0], parts[1]
+	}
 	if retypePattern(p, order) {
 		switch {
 		case kind == "accepted-concrete-mismatch":
 			return "branch-retypes-inferred-passthrough"
-		case strings.HasPrefix(kind, "run-mismatch") || (ex != nil && ex.Kind == "error"):
+		case exp == "error":
 			return "branch-retypes-inferred-passthrough/runtime-check-lost"
-		case ex != nil && ex.Kind == "ok":
+		case exp == "ok":
 			return "branch-retypes-inferred-passthrough/assignable-value-fails"
-		default:
+		case exp == "unjudged":
 			return "branch-retypes-inferred-passthrough/mismatch-with-interface-type"
 		}
 	}
-	cont := ""
-	if p.Container == "chain" {
-		cont = "chain:"
-	}
-	if kind == "accepted-concrete-mismatch" {
-		all := true
-		for _, c := range m.concreteMismatch {
-			if !m.widened(c) {
-				all = false
-			}
-		}
-		if all {
-			return "passthrough-typed-by-interface-neighbour"
+	cont := "" // the container (graph / chain) is not part of the class
+	passHandler := false
+	for _, n := range p.Nodes {
+		if n.Kind == "P" && (n.Pre >= 0 || n.Post >= 0) {
+			passHandler = true
 		}
 	}
 	switch {
 	case kind == "accepted-concrete-mismatch":
-		c := m.concreteMismatch[0]
-		for _, x := range m.concreteMismatch {
-			if !m.widened(x) {
-				c = x
-				break
+		var plain *conn
+		for i, c := range m.concreteMismatch {
+			if !m.widened(c) && plain == nil {
+				plain = &m.concreteMismatch[i]
 			}
 		}
+		if plain == nil {
+			return "passthrough-typed-by-first-neighbour/hides-concrete-mismatch"
+		}
 		via := "direct"
-		if c.Via > 0 {
+		if plain.Via > 0 {
 			via = "through-passthrough"
 		}
-		return cont + "accepted-concrete-mismatch/" + positionKind(p, c.From) + "-to-" + positionKind(p, c.To) + "/" + via
-	case ex != nil && ex.Kind == "error":
+		return cont + "accepted-concrete-mismatch/" + positionKind(p, plain.From) + "-to-" + positionKind(p, plain.To) + "/" + via
+	case exp == "error":
 		// a run-time check was due at ex.FailFrom -> ex.FailTo
-		got := strings.TrimPrefix(kind, "run-mismatch:error>")
-		return cont + "runtime-check-missing/" + positionKind(p, ex.FailFrom) + "-to-" + positionKind(p, ex.FailTo) + "/got-" + got
-	case ex != nil && ex.Kind == "ok":
-		return cont + "assignable-value-fails/" + p.Tmpl + "/" + strings.TrimPrefix(kind, "run-mismatch:ok>")
+		from := positionKind(p, ex.FailFrom)
+		if strings.HasPrefix(from, "passthrough-") {
+			return "passthrough-state-handler/output-unchecked"
+		}
+		return cont + "runtime-check-missing/" + from + "-to-" + positionKind(p, ex.FailTo) + "/got-" + got
+	case exp == "ok":
+		if passHandler && mode == "Stream" && got == "panic" {
+			return "passthrough-state-handler/stream-panics"
+		}
+		if got == "error" && m.narrowed() {
+			return "passthrough-typed-by-first-neighbour/refuses-assignable-value"
+		}
+		return cont + "assignable-value-fails/" + p.Tmpl + "/got-" + got
+	case exp == "unjudged":
+		return cont + "panic-escapes/static-mismatch-with-interface-type/" + p.Tmpl
 	}
-	return cont + kind + "/" + p.Tmpl + "/" + extra
+	return cont + "panic-escapes/construction/" + mode
 }
 
 // ---------------------------------------------------------------------------------------------------
@@ -384,7 +417,8 @@ func main() {
 	}
 	c.Res.Explanation = "Universe {string,int,A,*B,I1{A,*B},I2{*B},any,map[string]any}; template families (program.go): linear START/lambda -> 0..2 pass-throughs -> END/lambda, " +
 		"branches on START/lambda/pass-through with END, lambda and pass-through targets, fan-in and fan-out on a pass-through, two branches on one pass-through, state pre/post handlers of every type on " +
-		"pass-throughs and lambdas; every type parameter ranges over the whole universe (quick narrows the target type of two 3-parameter families). All linear extensions of 'node before the calls that mention it'. " +
+		"pass-throughs and lambdas; every type parameter ranges over the whole universe, except that quick narrows the third parameter of five 3-parameter families of seven calls to {X, Y, any} (or X to {string,int,A,I1,any} for the fan-out) " +
+		"and leaves the nine-call family lambda -> 2 pass-throughs -> lambda and the four-parameter families to thorough. All linear extensions of 'node before the calls that mention it' (up to 272 orders per program in quick). " +
 		"Oracle: (1) no panic escapes any Add*/Compile/Invoke/Stream/Recv call; (2) a connection (seen through pass-throughs) whose two declared types are concrete and unequal => some call returned an error, in every order; " +
 		"(3) on a connection with an interface upstream the run returns an ordinary error iff the dynamic value is not assignable, else succeeds with the expected value; (4) covered by (2)+(3): an accepted graph never fails at a both-concrete connection."
 	ev := &evaluator{c: c, ctx: context.Background()}
@@ -397,7 +431,7 @@ func main() {
 			os.Exit(2)
 		}
 		err := c.Guard(v.Scenario, cs, 120*time.Second, func() error {
-			fs, _ := ev.evalProgram(cs.Program)
+			fs, _ := ev.evalProgramN(cs.Program, 32) // see repeats(): a replay must not depend on Go's map iteration order
 			for _, f := range fs {
 				if f.Sig == v.Signature {
 					return fmt.Errorf("%s: %s: %s", f.Sig, cs.Program.OrderString(f.Order), f.Msg)
@@ -425,7 +459,7 @@ func main() {
 		var st progStats
 		t0 := time.Now()
 		err := c.Guard(name, Case{Program: p, Calls: name}, 120*time.Second, func() error {
-			fs, st = ev.evalProgram(p)
+			fs, st = ev.evalProgramN(p, repeats(p))
 			return nil
 		})
 		if err != nil { // a panic inside the harness itself (every API call is guarded separately)
